@@ -10,9 +10,12 @@ import (
 	"database/sql"
 	"path/filepath"
 	"strconv"
+	"strings"
+	"sync"
 	"testing"
 	"time"
 
+	"github.com/Cloud-Foundations/golib/pkg/log"
 	"github.com/Cloud-Foundations/golib/pkg/log/testlogger"
 )
 
@@ -180,6 +183,75 @@ func (e *c15Env) restart() {
 	e.restarts++
 	e.mode = c15Up
 	e.setMode(mode)
+}
+
+// a logger for BackgroundDBCopy that keeps what the loop reports about its copies
+type c15CopierLog struct {
+	log.DebugLogger
+	mu       sync.Mutex
+	started  int
+	failures int
+	success  int
+}
+
+func (l *c15CopierLog) Printf(format string, v ...interface{}) {
+	l.mu.Lock()
+	if strings.HasPrefix(format, "err=") {
+		l.failures++
+	}
+	l.mu.Unlock()
+	l.DebugLogger.Printf(format, v...)
+}
+
+func (l *c15CopierLog) Debugf(level uint8, format string, v ...interface{}) {
+	l.mu.Lock()
+	switch {
+	case strings.Contains(format, "starting db copy"):
+		l.started++
+	case strings.Contains(format, "db copy success"):
+		l.success++
+	}
+	l.mu.Unlock()
+	l.DebugLogger.Debugf(level, format, v...)
+}
+
+func (l *c15CopierLog) counts() (started, failures, success int) {
+	l.mu.Lock()
+	defer l.mu.Unlock()
+	return l.started, l.failures, l.success
+}
+
+// One turn of the REAL background copier: state.BackgroundDBCopy is started with no initial sleep and
+// stopped through its done channel while it sleeps ProfileStorage.SyncInterval after its first turn (copy,
+// purge of the primary, purge of the cache).  Reports what the loop logged about its copy.
+func (e *c15Env) copierTurn() (reportedSuccess bool, turns int) {
+	lg := &c15CopierLog{DebugLogger: testlogger.New(e.t)}
+	done := make(chan struct{})
+	finished := make(chan struct{})
+	go func() {
+		e.st.BackgroundDBCopy(0, done, lg)
+		close(finished)
+	}()
+	// the loop is in its sleep once it has reported on its copy (and purged: two more statements)
+	deadline := time.Now().Add(20 * time.Second)
+	for {
+		_, f, s := lg.counts()
+		if f+s > 0 {
+			break
+		}
+		if time.Now().After(deadline) {
+			e.t.Fatal("copier: no turn within 20 s")
+		}
+		time.Sleep(200 * time.Microsecond)
+	}
+	select {
+	case done <- struct{}{}:
+	case <-time.After(20 * time.Second):
+		e.t.Fatal("copier: did not stop")
+	}
+	<-finished
+	st, f, s := lg.counts()
+	return s == 1 && f == 0, st
 }
 
 func (e *c15Env) reopen() {
